@@ -692,14 +692,15 @@ func CellBytes(data []byte, pos int, typ byte, metadata uint16, isUnSignedInt bo
 			pos += 4
 		}
 
+		//当txt无正整数，此时需要在小数点前加上0，表示生成的数整数部分没有值。
+		// (also without a fraction: the value zero is "0", not an empty / NULL-looking result)
+		if !flag {
+			txt.WriteByte('0')
+		}
+
 		// now see if we have a fraction
 		if scale == 0 {
 			return txt.Bytes(), l, nil
-		}
-
-		//当txt无正整数，此时需要在小数点前加上0，表示生成的数整数部分没有值。
-		if !flag {
-			txt.WriteByte('0')
 		}
 
 		txt.WriteByte('.')
